@@ -105,6 +105,7 @@ Proof. unfold nodes_of. apply flat_map_app. Qed.
 
 Section BUILD.
   Variable strop : str -> str.
+  Variable ek : str -> str.      (* eqkey of Namespace.__eq__: `same` in the current code *)
   Variable es : bool.
   Variable ext : str.
   Variable outdir : path.
@@ -222,12 +223,12 @@ Section BUILD.
 
   (* ---- phase 2: the linking loop over the index, in arbitrary order -------------------------------- *)
   Definition set_parent (pk : key) (n : node) : node := mkNode (n_types n) (n_children n) (Some pk).
-  Definition add_child (k : key) (n : node) : node := mkNode (n_types n) (set_add strop (n_children n) k) (n_parent n).
+  Definition add_child (k : key) (n : node) : node := mkNode (n_types n) (set_add ek (n_children n) k) (n_parent n).
 
   Lemma link_step_eq s k :
-    link_step strop s k = match parent_of k with
+    link_step ek s k = match parent_of k with
                           | None => ensure s k
-                          | Some pk => add_nested strop (ensure (ensure s k) pk) pk k
+                          | Some pk => add_nested ek (ensure (ensure s k) pk) pk k
                           end.
   Proof.
     unfold link_step, parent_of, ensure. destruct (get_or_make s k) as [s1 b]; cbn [fst].
@@ -236,7 +237,7 @@ Section BUILD.
   Qed.
 
   Lemma get_add_nested s pk k k' : pk <> k ->
-    get (add_nested strop s pk k) k' =
+    get (add_nested ek s pk k) k' =
       if key_eqb k k' then option_map (set_parent pk) (get s k')
       else if key_eqb pk k' then option_map (add_child k) (get s k') else get s k'.
   Proof.
@@ -245,26 +246,26 @@ Section BUILD.
     exfalso; congruence.
   Qed.
 
-  Lemma keys_add_nested s pk k : keys (add_nested strop s pk k) = keys s.
+  Lemma keys_add_nested s pk k : keys (add_nested ek s pk k) = keys s.
   Proof. unfold add_nested. rewrite !keys_upd. reflexivity. Qed.
 
   Lemma mem_snoc k' done k : mem k' (done ++ [k]) = mem k' done || key_eqb k' k.
   Proof. unfold mem. rewrite existsb_app. cbn [existsb]. rewrite orb_false_r. reflexivity. Qed.
 
-  Lemma set_add_in l k c : In c (set_add strop l k) -> In c l \/ c = k.
+  Lemma set_add_in l k c : In c (set_add ek l k) -> In c l \/ c = k.
   Proof.
-    unfold set_add. destruct (existsb (ns_eqb strop k) l); [tauto|].
+    unfold set_add. destruct (existsb (ns_eqb ek k) l); [tauto|].
     intros H. apply in_app_or in H. destruct H as [H|[<-|[]]]; tauto.
   Qed.
 
-  Lemma set_add_incl l k c : In c l -> In c (set_add strop l k).
-  Proof. unfold set_add. destruct (existsb (ns_eqb strop k) l); [tauto|]. intros; apply in_or_app; tauto. Qed.
+  Lemma set_add_incl l k c : In c l -> In c (set_add ek l k).
+  Proof. unfold set_add. destruct (existsb (ns_eqb ek k) l); [tauto|]. intros; apply in_or_app; tauto. Qed.
 
-  Lemma set_add_nodup l k : NoDup l -> NoDup (set_add strop l k).
+  Lemma set_add_nodup l k : NoDup l -> NoDup (set_add ek l k).
   Proof.
-    unfold set_add. destruct (existsb (ns_eqb strop k) l) eqn:E; [tauto|]. intros H.
+    unfold set_add. destruct (existsb (ns_eqb ek k) l) eqn:E; [tauto|]. intros H.
     apply NoDup_snoc; [assumption|]. intros X.
-    assert (existsb (ns_eqb strop k) l = true); [|congruence].
+    assert (existsb (ns_eqb ek k) l = true); [|congruence].
     apply existsb_exists. exists k; split; [assumption | apply ns_eqb_refl].
   Qed.
 
@@ -272,7 +273,7 @@ Section BUILD.
     no_types : n_types n = types_at k types;
     no_parent : n_parent n = if mem k done then parent_of k else None;
     no_child_sound : forall c, In c (n_children n) -> In c done /\ parent_of c = Some k;
-    no_child_full : ns_inj strop types ->
+    no_child_full : ns_inj ek types ->
         NoDup (n_children n) /\ forall c, In c done -> parent_of c = Some k -> In c (n_children n)
   }.
 
@@ -323,7 +324,7 @@ Section BUILD.
   
     Lemma link_step_inv done s k :
       link_inv types s0 done s -> In k (nodes_of types) ->
-      link_inv types s0 (done ++ [k]) (link_step strop s k).
+      link_inv types s0 (done ++ [k]) (link_step ek s k).
     Proof.
       intros Hinv Hk. pose proof Hinv as [Hnd Hkn Hk0 Hdk Hdp Hnode].
       rewrite link_step_eq. destruct (parent_of k) as [pk|] eqn:Hp.
@@ -370,7 +371,7 @@ Section BUILD.
                ++ intros Hinj. destruct (D Hinj) as [D1 D2]. split; [apply set_add_nodup; exact D1|].
                   intros c Hc Hpc. apply in_app_or in Hc.
                   destruct Hc as [Hc|[<-|[]]]; [apply set_add_incl, D2; assumption|].
-                  unfold set_add. destruct (existsb (ns_eqb strop k) (n_children nb)) eqn:Ex;
+                  unfold set_add. destruct (existsb (ns_eqb ek k) (n_children nb)) eqn:Ex;
                     [|apply in_or_app; right; left; reflexivity].
                   apply existsb_exists in Ex. destruct Ex as (c' & Hc' & Heq). apply ns_eqb_spec in Heq.
                   assert (k = c'); [|subst; assumption].
@@ -404,7 +405,7 @@ Section BUILD.
 
     Lemma link_fold l : forall done s,
       link_inv types s0 done s -> (forall k, In k l -> In k (nodes_of types)) ->
-      link_inv types s0 (done ++ l) (fold_left (link_step strop) l s).
+      link_inv types s0 (done ++ l) (fold_left (link_step ek) l s).
     Proof.
       induction l as [|k l IH]; intros done s Hinv Hl; cbn [fold_left].
       - rewrite app_nil_r. exact Hinv.
@@ -415,8 +416,8 @@ Section BUILD.
   End STEP.
 
   Lemma build_unfold perm types :
-    build strop es ext outdir perm types =
-    let s' := fold_left (link_step strop) (perm (snd (build_index strop es ext outdir types)))
+    build strop ek es ext outdir perm types =
+    let s' := fold_left (link_step ek) (perm (snd (build_index strop es ext outdir types)))
                         (fst (build_index strop es ext outdir types)) in
     match s' with
     | [] => (fst (get_or_make s' [[]]), [[]])
@@ -437,7 +438,7 @@ Section BUILD.
     Let idx := snd (build_index strop es ext outdir types).
 
     (* the heap after the linking loop *)
-    Definition linked : store := fold_left (link_step strop) (perm idx) s0.
+    Definition linked : store := fold_left (link_step ek) (perm idx) s0.
 
     Lemma types_ns_nonempty t : In t types -> t_ns t <> [].
     Proof. intros Ht. destruct (Hroot t Ht) as (rest & ->). discriminate. Qed.
@@ -487,7 +488,7 @@ Section BUILD.
       - intros k n c Hg Hc. destruct (Hnode k n Hg) as [A B C D]. destruct (C c Hc). split; [apply Hdk|]; assumption.
     Qed.
 
-    Theorem linked_tree_full : ns_inj strop types -> tree_full strop es ext outdir types linked.
+    Theorem linked_tree_full : ns_inj ek types -> tree_full strop es ext outdir types linked.
     Proof.
       intros Hinj. destruct linked_inv as [Hnd' Hkn Hk0 Hdk Hdp Hnode]. constructor.
       - exact linked_tree_ok.
@@ -500,7 +501,7 @@ Section BUILD.
     Theorem build_eq :
       types <> [] ->
       exists k, In k (keys linked) /\
-                build strop es ext outdir perm types = (linked, get_root_namespace linked k).
+                build strop ek es ext outdir perm types = (linked, get_root_namespace linked k).
     Proof.
       intros Hne. rewrite build_unfold. fold s0 idx. fold linked. cbv zeta.
       pose proof linked_tree_ok as [_ Hk _ _ _].
